@@ -67,9 +67,11 @@ def sources(ctx):
             ck.violation("C20.sources", "fn=" + nm, str(e))
     pipe_closures = set()
     try:
-        reg = facts.method(AXE, "register_pipe")
-        pipe_closures = set(facts.closures_of(reg["path"]))
-    except KeyError:
+        from . import C13
+        pc = C13.hook_closures_by_syscall(ctx).get(22)  # the pipe() hook: descriptor numbers are the stated exception
+        if pc:
+            pipe_closures = {pc}
+    except Exception:  # noqa
         pass
     for k, site in sorted(rand_callers.items()):
         inst = "rand caller=%s" % (facts.bodies[owner(k)]["name"] + ("{closure}" if k != owner(k) else ""))
